@@ -19,7 +19,8 @@ D_S = datetime.datetime(2021, 1, 2, 3, 4, 5)
 
 AUTHORS = [[], [("Jane Doe", None, None, None)], [("Jane Doe", "j@x.org", "+1 555", "DIT")], [(None, "only@mail.org", None, None)],
            [("A & <B>", None, None, "role \"q\"")], [("-", None, None, None)], [("-", "dash@x.org", None, None)],
-           [("First", "f@x.org", None, None), ("Second ü", None, "123", "loader")], [("na\u2028me", None, None, None)]]
+           [("First", "f@x.org", None, None), ("Second ü", None, "123", "loader")], [("na\u2028me", None, None, None)],
+           [(" ", None, None, None)], [("\u3000", "blank@x.org", None, None)], [(" lead and trail ", None, None, " r ")]]
 
 DEFAULT = {"path": "plain.txt", "size": 1234, "fmts": ["xxh64"], "action": "original", "hashdate": D_US, "prev": None,
            "dirpath": "some dir", "dirfmts": ["xxh64"], "roothash": ["xxh64"], "patterns": [".DS_Store", "ascmhl", "ascmhl/"],
